@@ -21,6 +21,14 @@ Explains(e) ==
                             /\ (~IsNone(e.r) => e.back = e.w /\ e.off2 = e.off)                                          \* wall clock reads back
      \/ e.op = "from_utc"   /\ e.r = e.u /\ e.off2 = e.off /\ e.utcback = e.u
      \/ e.op = "wall"       /\ WallFields(e, Wall(e.u, e.off))
+     \* From impls between DateTime<Utc> / <FixedOffset> / <Local>, NaiveDate <-> NaiveDateTime; ==, partial_cmp and the distance across types
+     \/ e.op = "conv"       /\ e.fu = e.u /\ e.uf = e.u /\ e.uf_off = 0 /\ e.fl = e.u /\ e.lu = e.u /\ e.lf = e.u /\ e.lf_off_same /\ e.ul = e.u
+                            /\ e.nd = e.u.n /\ e.dn = [n |-> e.u.n, secs |-> 0, frac |-> 0]
+                            /\ e.eq_x /\ e.cmp_x /\ J(e.since_x) = Zero /\ J(e.since_l) = Zero
+     \/ e.op = "defaults"   /\ LET ep == [n |-> DayNumber(1970, 1, 1), secs |-> 0, frac |-> 0] IN
+                               /\ e.utc = ep /\ e.fixed = ep /\ e.fixed_off = 0 /\ e.local = ep /\ e.ndt = ep /\ e.date = ep.n /\ e.time = [secs |-> 0, frac |-> 0] /\ e.epoch = ep
+                               /\ e.min = [n |-> MinDay, secs |-> 0, frac |-> 0] /\ e.max = [n |-> MaxDay, secs |-> 86399, frac |-> 999999999]
+                               /\ e.nmin = e.min /\ e.nmax = e.max /\ e.tmin = [secs |-> 0, frac |-> 0]
      \/ e.op = "with_tz"    /\ e.r = e.u /\ e.off2 = e.newoff                      \* converting to another zone never changes the instant
      \/ e.op = "rel"        /\ e.eq = (e.a = e.b) /\ e.c = CmpDt(e.a, e.b) /\ ((e.a = e.b) => e.hasheq)    \* ==, Ord, Hash depend on the instant only
      \/ e.op = "tzwith"     /\ Res(e.r, TzWith(e.f, e.u, e.off, J(e.v)), e.off)
